@@ -53,9 +53,23 @@ STATIC_FINDINGS = {
         "the entity there stays unpowered`. Not repaired: needs the layout to reserve space. Attribution: only uncovered "
         "entities whose position the compiler's own warning names; any other uncovered consumer, and any split grid, is a "
         "VIOLATION."),
+    "C03-cell-read-and-its-data-source-both-locked-to-red": (
+        "**A cell's read and its own data source in one consumer are both locked to red** (C03). `m.write(v, when=c); "
+        "Signal d = v - m.read();` with v on the cell's signal type (the \"has it changed\" idiom): the memory module "
+        "locks the cell's output and every source of its data input to the red wire, one (source, signal) node has one "
+        "colour, so the subtraction receives both same-named operands on red and computes (v+m) - (v+m). "
+        "`plan_wire_colors` records the conflict as unresolved and the compiler goes on without a user-visible "
+        "diagnostic. Not repaired: it needs edge-level colours for non-merge edges or an isolating combinator whose "
+        "extra tick changes the timing of feedback expressions that the arithmetic-feedback optimisation pattern-matches. "
+        "Found through a sub-agent's side remark (C03e). Attribution: the compiler's own report (`coloring_ok` false) "
+        "AND the structural scope predicate `data_meets_read` (one operation whose operands are a cell's read and a "
+        "bare same-typed signal stored by that cell's write); everything else in C03 is a VIOLATION."),
 }
 
 FALSE_ALARMS = [
+    "C06 (new stratum entity_controlled_and_read): the harness gave contents to every belt / inserter of a case, also to plain sinks that do not read their contents; and it let the condition's operand have the type of an item the entity holds - a single-connector entity always reads its own output, which no wiring can prevent. Contents are now emitted only for entities the program reads through `.output`, and the operand type is never one the entity holds.",
+    "C08 / C18 thorough: `biggen.mixed_program` crashed with `type pool exhausted` for large programs (a check that exits non-zero is broken): the memory loop now restarts the pool like the statement loop did.",
+    "C11 (function_argument in a loop): the result was declared inside the loop body and is not observable by name; the loop variant now drives a lamp.",
     "C06: the entity cross-check compared the enable signal's value on the wire with the reference even when the comparison result shares its type with a memory signal; restricted to non-comparison enables.",
     "C02 / C20: `Bundle r = { m0 }` relabels the input's combinator, so the declared input cannot be driven by its label: such cases are `inconclusive (undrivable)`, and the generators avoid the single-input literal.",
     "C05: a generator type mismatch (value type != cell type) produced rejections, not violations; values are now projected onto the cell type.",
@@ -242,6 +256,9 @@ def main():
     out.append("")
     p = os.path.join(V, "DESIGN.md")
     s = open(p).read()
+    nfind = len({x["id"] for x in kf["findings"]})
+    s = re.sub(r"\((?:\d+|@@NFIX@@) repaired defects, \d+ listed findings\)",
+               "(%d repaired defects, %d listed findings)" % (len(kf.get("fixed", [])), nfind), s)
     if MARK in s:
         s = s[: s.index(MARK)]
     if not s.endswith("\n\n"):
